@@ -75,7 +75,7 @@ func runNode(in []byte, args ...string) ([]byte, error) {
 
 // Reference evaluates the requests with the vendored proj4js 2.3.12 under node
 // and cross-checks them with the committed golden file ref/golden/<name>.json.gz
-// (written when absent or when VERIF_REGEN_GOLDEN=1). Without node the golden
+// (written when absent or when VERIF_REGEN_GOLDEN=1; never overwritten otherwise). Without node the golden
 // values are used; they must belong to exactly this request list.
 func Reference(name string, reqs []Req) ([]Res, string) {
 	in, _ := json.Marshal(map[string]interface{}{"requests": reqs})
@@ -123,6 +123,10 @@ func Reference(name string, reqs []Req) ([]Res, string) {
 			}
 		}
 		src += ", cross-checked with committed golden"
+	} else if g != nil && os.Getenv("VERIF_REGEN_GOLDEN") == "" {
+		// the committed golden belongs to another request list (the code under
+		// check produced other cases): use node's answers, leave the file alone
+		src += ", committed golden is for another request list (kept; VERIF_REGEN_GOLDEN=1 rewrites it)"
 	} else {
 		os.MkdirAll(filepath.Dir(gpath), 0o755)
 		b, _ := json.Marshal(golden{Hash: hash, Results: r.Results})
